@@ -350,6 +350,16 @@ def _check_nll(ck, inst, f, p, t, mname):
             ok = c == -1 and len(mono) == 1 and isinstance(mono[0][0], T.App) and mono[0][0].op == "mean" and isinstance(mono[0][0].args[0].single_atom(), T.App) and mono[0][0].args[0].single_atom().op == "plog"
             if c == 1 and len(mono) == 1:
                 ok = False
+            if not ok and len(mono) == 2:
+                # the mean written as the sum over the batch divided by its length
+                atoms = dict(mono)
+                sums = [a for a in atoms if isinstance(a, T.App) and a.op == "sum" and atoms[a] == 1 and a.args[1] in ("all", (-1,)) and isinstance(a.args[0].single_atom(), T.App) and a.args[0].single_atom().op == "plog"]
+                if len(sums) == 1 and atoms.get(B.single_atom()) == -1:
+                    ok = c == -1
+                else:
+                    ok = None
+            elif not ok and not (c == 1 and len(mono) == 1):
+                ok = None  # another shape: not decided
         ck.check(ok, "C10.R3", inst + ":NLL = -mean log p", f.site(), "NLL without bases is %r; expected minus the mean log-probability" % (t,))
         return
     # with bases: (1/len(samples)) * accumulated (-sum log p) over basis groups
@@ -378,8 +388,8 @@ def _check_nll(ck, inst, f, p, t, mname):
     for c in p.calls:
         if c[0].endswith("rotate_psi_inner_prod") or c[0].endswith("rotate_rho_probs"):
             a = c[7]
-            isym = [s for s in (a.get("states").syms() if a.get("states") is not None else []) if s.startswith("i@")]
-            bsym = [s for s in (a.get("basis").syms() if a.get("basis") is not None else []) if s.startswith("i@")]
+            isym = [s for s in (a.get("states").syms() if a.get("states") is not None else []) if s.startswith(("i@", "last@"))]
+            bsym = [s for s in (a.get("basis").syms() if a.get("basis") is not None else []) if s.startswith(("i@", "last@"))]
             if isym or bsym:
                 # a side on which no group index is visible (another way of selecting the group's rows) is undecided, not wrong
                 ck.check((isym == bsym) if (isym and bsym) else None, "C10.R4", inst + ":group's samples rotated with the group's basis", f.site(), "samples of group %s are rotated with the basis of group %s" % (isym, bsym))
